@@ -13,11 +13,14 @@ are an exploration layer only."""
 import json
 import vlib
 
+KINDS = ["byte", "bool", "u32", "u64", "string", "bytes", "namelist", "mpint", "arr1", "arr4", "arr8", "arr16", "rest"]
+
 
 def run(ctx):
     ctx.level = "model_checking"
     ctx.rule = ("cases = (message struct, field values) enumerated by TLC from SSHWire_MC: for each of the 38 message structs of "
-                "messages.go that have fields and 4 ad hoc structs, the base assignment plus each field taking every boundary value "
+                "messages.go that have fields, 4 ad hoc structs and 50 position-complete shapes (every field kind as only/first/middle/last "
+                "field, built with reflect.StructOf), the base assignment plus each field taking every boundary value "
                 "of its kind (uint32/uint64 limbs, strings of length 0..257 (65536 thorough), name-lists, mpints +-(2^k-1, 2^k, 2^k+1) "
                 "for k up to 64 (2048 thorough), rest, arrays); each case carries its mutants (truncations, 1-4 trailing bytes, wrong "
                 "type bytes, every length field set to 0/len-1/len+1/2^31/2^32-1); distinct = distinct (message, values)")
@@ -43,7 +46,22 @@ def run(ctx):
         raise vlib.Infra("SSHWire generator: expected one table line and some cases, got %d / %d" % (len(table), len(cases)))
     ctx.log("SSHWire: %d cases, %d mutants" % (len(cases), sum(len(c["muts"]) for c in cases)))
     res = ctx.go_test("c24", "TestReplay", cases=table + cases, timeout=1200)
+    cover = (res.get("extra") or {}).pop("c24_kind_position_cover", None) or {}
     ctx.absorb(res)
+    # vacuity guard: every field kind must have been exercised as FIRST, MIDDLE and LAST field of some struct (rest: only
+    # as a final member, as documented), and in last position with exactly enough / one byte short / one byte extra input
+    missing = []
+    for k in KINDS:
+        for pos in (["first", "last"] if k == "rest" else ["first", "middle", "last"]):
+            if not cover.get("%s|%s" % (k, pos)):
+                missing.append("%s|%s" % (k, pos))
+        for b in ["exact", "short", "extra"]:
+            if not cover.get("%s|last|%s" % (k, b)):
+                missing.append("%s|last|%s" % (k, b))
+    if missing:
+        raise vlib.Infra("C24 vacuity guard: (field kind, position) pairs never exercised: %s" % missing)
+    ctx.extra["c24_kind_position_pairs_exercised"] = len([k for k in cover if k.count("|") == 1])
+    ctx.extra["c24_last_field_boundary_inputs"] = sum(v for k, v in cover.items() if k.count("|") == 2)
     n = ctx.pick(200000, 5000000)
     smoke = ctx.go_test("c24", "TestSmoke", timeout=1500, env={"VERIF_C24_SMOKE": n})
     # exploration layer: its inputs are not counted as model-derived cases
